@@ -641,7 +641,9 @@ fn one_history(a: &Args, mode: &str, seed: u64, obs: &mut Obs, violations: &mut 
             };
             world.lock().unwrap().advance(dt);
             spent += dt;
-            let cgap = if rng.chance(1, 4) || mode == "c12" { rng.range(0, if mode == "c12" { 2_000_000_000 } else { 100_000 }) as i128 } else { 0 };
+            // Time passing between the client's two clock reads: usually nothing or microseconds,
+            // now and then a preemption of up to 2 s (always in c12 mode).
+            let cgap = if mode == "c12" || rng.chance(1, 16) { rng.range(0, 2_000_000_000) as i128 } else if rng.chance(1, 4) { rng.range(0, 100_000) as i128 } else { 0 };
             let fresh = rng.chance(1, 5);
             if mode == "c12" && cgap > 0 && !fresh {
                 // Same instant without the delay first: the delay may only widen the interval.
